@@ -123,7 +123,7 @@ def classify_exception(e, text):
 class Sandbox:
     """scratch directory outside /repo and /verif, removed on exit"""
     def __enter__(self):
-        self.dir = tempfile.mkdtemp(prefix='cminxverif_'); return self
+        self.dir = tempfile.mkdtemp(prefix='+cmxv_', suffix='+'); return self
     def __exit__(self, *a):
         shutil.rmtree(self.dir, ignore_errors=True)
     def write(self, rel, text, raw=None):
